@@ -44,3 +44,17 @@ CLAIMS = {
 }
 
 NA = {f"C{i:02d}": PENDING for i in range(1, 21)}
+
+CLAIMS["C17"] = {
+    "text": "Decides structural necessary conditions of correct dm fidelity / trace distance / partial trace: every "
+            "transpose of a possibly complex matrix in density_matrix/functions.py and state.py is a conjugate transpose; "
+            "partial_trace's einsum repeats the label of each dropped axis (trace, not sum); no function in the exact "
+            "call-graph closure of fidelity, trace_distance, partial_trace, Infidelity.evaluate, TraceDistance.evaluate "
+            "raises a Warning class on the value path; the two metrics convert a copy of the state and pair target data "
+            "with state data. These hold for all inputs because they are properties of the expressions themselves. "
+            "Does not decide symmetry, range, Uhlmann value, Fuchs-van de Graaf, or cross-representation equality.",
+    "ref": "DESIGN.md §5.17",
+    "note": "Trusted: numpy's einsum/eigh semantics; matrices other than integer index arrays are treated as possibly complex.",
+    "technique": "static analysis: expression-shape lint (adjoint composition, einsum label repetition), exact call-graph "
+                 "closure for raise sites, alias check for copy-before-convert",
+}
